@@ -279,6 +279,16 @@ def dispatch (op : String) (args : List String) : Option String :=
   | "msg.produce" => some (opProduce args)
   | "msg.consume" => some (opConsume args)
   | "msg.reencode" => some (opReencode args)
+  -- a history of library-chosen nonces: consecutive whole blocks of the random stream (`fresh_draws_are_consecutive_blocks`),
+  -- distinct under the assumption that `crypto/rand` does not repeat a block
+  | "msg.noncehistory" => some (match args with
+      | [alg, _count] => if (alg.toInt?.map (fun a => ccmKeySize a != 0 || gcmKeySize a != 0 || a == Cose.Gen.Iana.AlgorithmChaCha20Poly1305)).getD false then "ok distinct" else "err key"
+      | _ => "bad-op")
+  -- history freedom: a reused message object / verifier answers like fresh ones on the last message and external data
+  | "msg.reuse" => some (match args with
+      | kind :: mode :: _ext1 :: msg1 :: ext2 :: msg2 :: rest =>
+        opConsume (kind :: mode :: ext2 :: (if msg2 == "=" then msg1 else msg2) :: rest)
+      | _ => "bad-op")
   | "msg.untag" => some (match args with | [h] => (match unhex h with | some b => "ok " ++ hex (removeTag b) | none => "bad-op") | _ => "bad-op")
   | _ => none
 
